@@ -1,40 +1,62 @@
 ---- MODULE EntryLocks ----
-(* Lock-level model of one repository entry (crl/crlrepository): AddCRL tail (entry write lock, optional
-   tryUpdateSignatureCertFromChain), checkCrl (read lock), set/resetLastSignatureVerifyFailed (write lock).
+(* Lock-level model of one repository entry (crl/crlrepository): the tail of AddCRL (flag read under the read lock,
+   then tryUpdateSignatureCertFromChain under the write lock with a re-check of the flag), checkCrl (read lock),
+   set/resetLastSignatureVerifyFailed (write lock, by a refresh).
    Deadlock is an invariant over the wait-for relation: TLC's built-in deadlock check is useless here because
-   the environment can always move.  Relock = TRUE models the code before the C13/D10 repair (the callee
-   re-acquires the non-reentrant lock its caller holds).  Serves C13. *)
+   the environment can always move.
+   Relock = TRUE models the code before the C13/D10 repair (the callee re-acquires the non-reentrant lock its
+   caller still holds).  Recheck = FALSE models a callee that trusts the caller's earlier read of the flag: a
+   refresh may have reset the state in between, and the pending signature it dereferences is gone.  Serves C13. *)
 EXTENDS Naturals, FiniteSets, TLC
-CONSTANTS Relock      \* TRUE: tryUpdateSignatureCertFromChain re-acquires the entry lock (code as it is)
+CONSTANTS Relock, Recheck
 Procs == {"h1", "h2", "ref"}
-VARIABLES pc, w, r, sigFailed     \* w: writer holding entryLock or "none"; r: set of read holders
-vars == <<pc, w, r, sigFailed>>
-Init == pc = [p \in Procs |-> "idle"] /\ w = "none" /\ r = {} /\ sigFailed = FALSE
+VARIABLES pc, w, r, sigFailed, pending, seen, crashed
+\* w: writer holding entryLock or "none"; r: set of read holders; sigFailed: LastUpdateSignatureVerifyFailed;
+\* pending: LastUpdateSignature # nil; seen[p]: what handshake p read; crashed: a nil dereference happened
+vars == <<pc, w, r, sigFailed, pending, seen, crashed>>
+Init == /\ pc = [p \in Procs |-> "idle"] /\ w = "none" /\ r = {} /\ sigFailed = FALSE /\ pending = FALSE
+        /\ seen = [p \in Procs |-> FALSE] /\ crashed = FALSE
 CanW(p) == w = "none" /\ r = {}
 CanR(p) == w = "none"
-\* which lock step a process is waiting at, if any
-WantsW(p) == pc[p] \in {"add.lock", "try.lock", "ref.lock"}
-WantsR(p) == pc[p] \in {"look.rlock"}
+WantsW(p) == pc[p] \in {"try.lock", "ref.lock"}
+WantsR(p) == pc[p] \in {"add.rlock", "look.rlock"}
 Blocked(p) == (WantsW(p) /\ ~CanW(p)) \/ (WantsR(p) /\ ~CanR(p))
 Blockers(p) == IF WantsW(p) THEN (IF w = "none" THEN {} ELSE {w}) \cup r ELSE IF WantsR(p) THEN (IF w = "none" THEN {} ELSE {w}) ELSE {}
 Goto(p, l) == pc' = [pc EXCEPT ![p] = l]
-\* handshake: AddCRL tail then IsRevoked lookup
-HStart(p)   == p \in {"h1","h2"} /\ pc[p] = "idle" /\ Goto(p, "add.lock") /\ UNCHANGED <<w, r, sigFailed>>
-HAddLock(p) == pc[p] = "add.lock" /\ CanW(p) /\ w' = p /\ Goto(p, "add.locked") /\ UNCHANGED <<r, sigFailed>>
-HAddChk(p)  == pc[p] = "add.locked" /\ (IF sigFailed THEN Goto(p, IF Relock THEN "try.lock" ELSE "try.body") ELSE Goto(p, "add.unlock")) /\ UNCHANGED <<w, r, sigFailed>>
-HTryLock(p) == pc[p] = "try.lock" /\ CanW(p) /\ w' = p /\ Goto(p, "try.body") /\ UNCHANGED <<r, sigFailed>>
-HTryBody(p) == pc[p] = "try.body" /\ sigFailed' \in {sigFailed, FALSE} /\ Goto(p, "add.unlock") /\ UNCHANGED <<w, r>>
-HAddUnl(p)  == pc[p] = "add.unlock" /\ w' = "none" /\ Goto(p, "look.rlock") /\ UNCHANGED <<r, sigFailed>>
-HRLock(p)   == pc[p] = "look.rlock" /\ CanR(p) /\ r' = r \cup {p} /\ Goto(p, "look.body") /\ UNCHANGED <<w, sigFailed>>
-HRUnl(p)    == pc[p] = "look.body" /\ r' = r \ {p} /\ Goto(p, "idle") /\ UNCHANGED <<w, sigFailed>>
-\* refresher: a refresh whose signature check failed records the fact under the write lock
-RStart == pc["ref"] = "idle" /\ Goto("ref", "ref.lock") /\ UNCHANGED <<w, r, sigFailed>>
-RLock  == pc["ref"] = "ref.lock" /\ CanW("ref") /\ w' = "ref" /\ Goto("ref", "ref.body") /\ UNCHANGED <<r, sigFailed>>
-RBody  == pc["ref"] = "ref.body" /\ sigFailed' \in BOOLEAN /\ w' = "none" /\ Goto("ref", "idle") /\ UNCHANGED r
-Next == RStart \/ RLock \/ RBody \/ \E p \in {"h1","h2"} : HStart(p) \/ HAddLock(p) \/ HAddChk(p) \/ HTryLock(p) \/ HTryBody(p) \/ HAddUnl(p) \/ HRLock(p) \/ HRUnl(p)
+Same(vs) == UNCHANGED vs
+\* ---- handshake: AddCRL tail, then the lookup of IsRevoked ----
+HStart(p)   == p \in {"h1", "h2"} /\ pc[p] = "idle" /\ Goto(p, "add.rlock") /\ Same(<<w, r, sigFailed, pending, seen, crashed>>)
+HAddRLock(p) == pc[p] = "add.rlock" /\ CanR(p) /\ r' = r \cup {p} /\ Goto(p, "add.read") /\ Same(<<w, sigFailed, pending, seen, crashed>>)
+HAddRead(p) == pc[p] = "add.read" /\ seen' = [seen EXCEPT ![p] = sigFailed]
+               /\ (IF Relock THEN Goto(p, IF sigFailed THEN "try.lock" ELSE "add.runlock") /\ r' = r      \* old code: keeps the lock while calling the callee
+                   ELSE Goto(p, "add.runlock") /\ r' = r)
+               /\ Same(<<w, sigFailed, pending, crashed>>)
+HAddRUnl(p) == pc[p] = "add.runlock" /\ r' = r \ {p} /\ Goto(p, IF seen[p] /\ ~Relock THEN "try.lock" ELSE "look.rlock") /\ Same(<<w, sigFailed, pending, seen, crashed>>)
+HTryLock(p) == pc[p] = "try.lock" /\ CanW(p) /\ w' = p /\ Goto(p, "try.check") /\ Same(<<r, sigFailed, pending, seen, crashed>>)
+\* the callee: check again whether somebody else already repaired / reset the state, then use the pending signature
+HTryCheck(p) == /\ pc[p] = "try.check"
+                /\ IF Recheck /\ ~sigFailed THEN Same(<<sigFailed, pending, crashed>>)
+                   ELSE /\ crashed' = (crashed \/ ~pending)                 \* verifyCRLSignature(LastUpdateSignature): nil if reset
+                        /\ sigFailed' \in {sigFailed, FALSE} /\ Same(pending)
+                /\ Goto(p, "try.unlock") /\ Same(<<w, r, seen>>)
+HTryUnl(p)  == pc[p] = "try.unlock" /\ w' = "none" /\ Goto(p, "look.rlock") /\ Same(<<r, sigFailed, pending, seen, crashed>>)
+HRLock(p)   == pc[p] = "look.rlock" /\ CanR(p) /\ r' = r \cup {p} /\ Goto(p, "look.body") /\ Same(<<w, sigFailed, pending, seen, crashed>>)
+HRUnl(p)    == pc[p] = "look.body" /\ r' = r \ {p} /\ Goto(p, "idle") /\ Same(<<w, sigFailed, pending, seen, crashed>>)
+\* ---- refresher: records a failed verification (with the pending result) or resets both, under the write lock ----
+RStart == pc["ref"] = "idle" /\ Goto("ref", "ref.lock") /\ Same(<<w, r, sigFailed, pending, seen, crashed>>)
+RLock  == pc["ref"] = "ref.lock" /\ CanW("ref") /\ w' = "ref" /\ Goto("ref", "ref.body") /\ Same(<<r, sigFailed, pending, seen, crashed>>)
+RBody  == /\ pc["ref"] = "ref.body"
+          /\ \/ (sigFailed' = TRUE /\ pending' = TRUE)
+             \/ (sigFailed' = FALSE /\ pending' = FALSE)
+          /\ w' = "none" /\ Goto("ref", "idle") /\ Same(<<r, seen, crashed>>)
+Next == RStart \/ RLock \/ RBody \/ \E p \in {"h1", "h2"} : HStart(p) \/ HAddRLock(p) \/ HAddRead(p) \/ HAddRUnl(p) \/ HTryLock(p) \/ HTryCheck(p) \/ HTryUnl(p) \/ HRLock(p) \/ HRUnl(p)
 Spec == Init /\ [][Next]_vars
-\* a deadlock is a non-empty set of blocked processes whose blockers all lie inside the set
+\* a deadlock is a non-empty set of blocked processes whose blockers all lie inside the set (covers self-deadlock)
 NoDeadlock == ~ \E S \in (SUBSET Procs) \ {{}} : \A p \in S : Blocked(p) /\ Blockers(p) # {} /\ Blockers(p) \subseteq S
-\* lockset discipline: sigFailed is only written while holding the write lock
-Lockset == [][sigFailed' # sigFailed => \E p \in Procs : w = p]_vars
+\* lockset discipline: the flag and the pending signature are only written while holding the write lock
+Lockset == [][(sigFailed' # sigFailed \/ pending' # pending) => \E p \in Procs : w = p]_vars
+\* never crash: the pending signature is only dereferenced while it exists
+NoCrash == ~crashed
+\* the data invariant the callee relies on
+FlagHasPending == sigFailed => pending
 ====
